@@ -27,10 +27,26 @@ EXHAUSTIVE_WHOLE = False
 def REQUIRED(tier):  # noqa: N802
     return {"compositions_checked": 119 if tier == "quick" else 270,
             "decodes": 3000, "dropped_games": 200, "odd_n_decodes": 300,
-            "gameplan_object_decodes": 500}
+            "gameplan_object_decodes": 500, "suite_runs": 1,
+            "contract_map_games_evaluated": 1000}
+
+
+# the repository's own tests as a further workload, observed by the
+# process-wide contracts of vlib/monitors (see vlib/suite.py)
+SUITE_TESTS = ['tests/ttp/test_game_encoding.py']
+SUITE_DOMAINS = ['ttp']
 
 
 def plan(tier: str, seed: int):
+    rounds = 1 if tier == "quick" else 6
+    return _plan(tier, seed) + [
+        {"name": f"suite{i}", "engine": "jit", "timeout": 3000,
+         "args": {"mode": "suite", "tests": SUITE_TESTS,
+                  "domains": SUITE_DOMAINS, "rounds": rounds}}
+        for i in range(1 if tier == "quick" else 4)]
+
+
+def _plan(tier: str, seed: int):
     if tier == "quick":
         return [{"name": "comp", "engine": "jit",
                  "args": {"mode": "comp", "nmax": 16, "rmax": 8},
